@@ -86,7 +86,8 @@ func primitiveProcessor[T p.ZogPrimitive](ctx *p.SchemaCtx, tests []Test, postTr
 				*destPtr = *catch
 				return
 			} else {
-				ctx.AddIssue(ctx.IssueFromTest(required, *destPtr))
+				// the offending value is the (absent) input, not whatever the destination happens to hold
+				ctx.AddIssue(ctx.IssueFromTest(required, ctx.Data))
 				return
 			}
 		}
